@@ -28,12 +28,11 @@ ASSUMPTIONS = [
     'holds_C06 makes no claim for sources the reference grammar leaves undefined (Spec/LuaLex.v header), e.g. unknown '
     'escapes, raw line breaks inside quoted strings, lone carriage returns',
 ]
-PARTIAL = ('holds_C06_relex (the written text is itself in the dialect and re-lexes, under the REFERENCE grammar, to the same '
-           'views) is evaluated on the implementation but not proved in this cone; its model-side counterpart is proved for '
-           'every input (C06_relex_stable / C06_echo_idempotent: the written text is a fixed point of lex + echo), and the '
-           'reference-side statement follows from C06_echo + C06_echo_crlf_only by the `require` worker\'s '
-           'Proofs/SpecLexChunk.v (holds_C06_sig_views). Sources the reference grammar leaves undefined are outside the claim '
-           'of C06_echo (C06_cover, C06_code_is_extent, C06_relex_stable, C06_echo_chunks_nonempty hold for every lexable input).')
+PARTIAL = ('Nothing of the statement is left unproved for the model: C06_echo (holds_C06) and C06_relex_reference '
+           '(holds_C06_relex: the written text is itself in the dialect and re-lexes, under the REFERENCE grammar, to the same '
+           'views; Proofs/EchoRelexSpec.v) hold for every byte string, as one chunk and as per-line chunks. Limits: sources '
+           'the reference grammar leaves undefined are outside the claim of both predicates (C06_cover, C06_code_is_extent, '
+           'C06_relex_stable, C06_echo_chunks_nonempty hold for every lexable input).')
 CLAIM = dict(
     text=("Theorems (Coq, closed under the global context) about an executable model of the lexer, Token.code / "
           "TokString.code (over the escape tables regenerated from lexer.py on every run) and LuaEchoWriter.to_lines: "
@@ -44,7 +43,11 @@ CLAIM = dict(
           "lexable input; C06_echo_is_codes; C06_string_reencode (decode(TokString.code(v)) = v for every byte string, "
           "both quotes); C06_string_decode_agrees (the in-string loop = the reference decoder, every escape form); "
           "C06_relex_stable / C06_echo_idempotent(_lf) (lexing the written text again, also with a final line feed "
-          "supplied, writes the very same text - every input); C06_echo_chunks_nonempty. "
+          "supplied, writes the very same text - every input); C06_echo_chunks_nonempty; "
+          "C06_relex_reference(_chunks) - for EVERY byte string the second monitor predicate holds_C06_relex holds of "
+          "(source, text written by the model): the written text of a source of the dialect is in the dialect and its "
+          "reference tokens have the same views (C06_relex_of_holds: holds_C06 + no lone CR implies holds_C06_relex for "
+          "any pair, C06_echo_in_dialect). "
           "Tie: extracted model vs implementation line by line in both chunkings + extracted monitor on the "
           "implementation's output. Three echo defects found by this check were fixed (findings/known_C06.json)."),
     note=("Trusted: Coq kernel+VM, table dump gen/kernels_lexer.py, hand-written scanners for the pinned regex sources "
